@@ -1606,6 +1606,15 @@ def _eval_sharded(prop, check_module, terms, preamble="", shard=400, timeout=900
     if prop == "C15":
         shard = max(2, (len(terms) + vlib.NCPU - 1) // vlib.NCPU)
         timeout = max(timeout, 3000)   # a loaded machine must not turn into an alarm
+        try:
+            return _orig_eval(prop, check_module, terms, preamble=preamble, shard=shard, timeout=timeout)
+        except RuntimeError:
+            # a coqc process that died half-way (killed on an overloaded machine: seen once, after five
+            # results of its shard, no error message) is not a verdict: evaluate once more, in smaller
+            # shards; an ill-formed term or a genuine error fails again and is raised
+            import time
+            time.sleep(3)
+            return _orig_eval(prop, check_module, terms, preamble=preamble, shard=max(2, shard // 2), timeout=timeout)
     return _orig_eval(prop, check_module, terms, preamble=preamble, shard=shard, timeout=timeout)
 
 
